@@ -70,7 +70,7 @@ theorem pushFront_rep {L : Layout} {r : Ring} {g : List (Nat × Pdu)} {n o : Nat
       · omega
       · omega
       · have hlt1 := hc1.lt hg1
-        refine ⟨hmlen, Or.inr (Or.inr ⟨by simp; omega, g1, g2 ++ [(r.front, p)], pw, by simp [hg], hg1, by simp,
+        refine ⟨hmlen, Or.inr (Or.inr ⟨by simp; split <;> omega, g1, g2 ++ [(r.front, p)], pw, by simp [hg], hg1, by simp,
           ?_, hpw, ?_, ?_⟩)⟩
         · simp only [show (r.front = r.end_) = False from by simp; omega, if_false]
           exact hc1.frame (fun i h1 h2 => hout i (by omega))
